@@ -8,6 +8,8 @@ func init() {
 		Runs: []hrun{
 			{Pkg: wtxmgrPkg, Fn: "ZzC14Sort2", Tiers: "qt", Reach: []string{"c14-end", "c14-has-edge", "c14-multi-edge"}, Bound: "all spend DAGs on 2 transactions with <=2 inputs each x every order of both map ranges"},
 			{Pkg: wtxmgrPkg, Fn: "ZzC14Sort3", Tiers: "qt", Reach: []string{"c14-end", "c14-has-edge", "c14-multi-edge"}, Bound: "all spend DAGs on 3 transactions (<=2 inputs each: external, any earlier tx, second edge to the same parent) x every order of both map ranges"},
+			{Pkg: wtxmgrPkg, Fn: "ZzC14Store2", Tiers: "qt", Reach: []string{"c14-end", "c14-has-edge", "c14-multi-edge", "c14-parent-without-credit"}, Bound: "the same DAGs on 2 transactions recorded as unconfirmed transactions of a real Store over memdb, each with none / the first / both outputs credited to the wallet, then Store.UnminedTxs under every order of every map range"},
+			{Pkg: wtxmgrPkg, Fn: "ZzC14Store3", Tiers: "t", Reach: []string{"c14-end", "c14-multi-edge", "c14-parent-without-credit"}, Bound: "Store.UnminedTxs, DAGs on 3 transactions x credited-output choices x map orders (209952 paths)"},
 			{Pkg: wtxmgrPkg, Fn: "ZzC14Sort4", Tiers: "t", Reach: []string{"c14-end", "c14-multi-edge"}, Bound: "all spend DAGs on 4 transactions x every order of both map ranges (331776 paths)"},
 		},
 		Outside: "more than 4 transactions, more than 2 inputs per transaction; here graph shapes and map orders are enumerated exhaustively (structural forks), no data is symbolic",
@@ -90,10 +92,13 @@ func init() {
 			{Pkg: migPkg, Fn: "ZzC19N2", Tiers: "qt", Reach: []string{"c19-end", "two-migrations"}, Bound: "table length 2 (any declaration order, numbers symbolic and distinct)"},
 			{Pkg: migPkg, Fn: "ZzC19N3", Tiers: "qt", Reach: []string{"c19-end", "two-migrations"}, Bound: "table length 3"},
 			{Pkg: migPkg, Fn: "ZzC19N4", Tiers: "t", Reach: []string{"c19-end"}, Bound: "table length 4"},
+			{Pkg: migPkg, Fn: "ZzC19N2R2", Tiers: "qt", Reach: []string{"c19-end", "second-upgrade-with-the-same-table", "upgraded"}, Bound: "table length 2, TWO upgrades with the same manager and table, each from its own symbolic stored version (a table damaged by the first call is noticed by the second); the table must still hold every declared version"},
+			{Pkg: migPkg, Fn: "ZzC19N3R2", Tiers: "t", Reach: []string{"c19-end", "second-upgrade-with-the-same-table"}, Bound: "table length 3, two upgrades"},
+			{Pkg: walletPkg, Fn: "ZzC19WalletOpen", Tiers: "qt", Reach: []string{"c19w-end", "newer", "fault-hit", "open-failed", "opened", "failed-with-pending-wtxmgr-migration"}, Bound: "wallet.Open (OpenWithRetry: both migration managers, both Opens, one database transaction) on a created wallet with one recorded transaction; stored versions of BOTH namespaces symbolic uint32 (waddrmgr >= 5: older layouts are not synthesised), optional failing write at a symbolic position: a failed Open leaves the whole database dump unchanged, a successful one records both latest versions"},
 			{Pkg: wtxmgrPkg, Fn: "ZzC19Store", Tiers: "qt", Reach: []string{"c19-end", "newer", "current", "upgraded", "fault-hit"}, Bound: "real wtxmgr.MigrationManager and Open over memdb with history present; stored version symbolic uint32; optional write fault at symbolic position inside the upgrade transaction"},
 		},
-		Assume:  []string{"memdb for bbolt (wtxmgr part)", "the waddrmgr migration manager is covered only through the generic manager harness (its Versions table is executed by C08/C03 set-up, not with symbolic versions)"},
-		Outside: "tables longer than 4; waddrmgr's concrete migrations with symbolic stored versions; wallet.Open's orchestration",
+		Assume:  []string{"memdb for bbolt (wtxmgr part)", "waddrmgr's migrations 6..8 run (through wallet.Open) on a database of the current layout stamped with an older version; layouts older than version 5 are not synthesised"},
+		Outside: "tables longer than 4; waddrmgr database layouts older than version 5; more than two upgrades with one table",
 	})
 	reg(&propDef{
 		ID: "C07",
@@ -191,6 +196,8 @@ func init() {
 			{Pkg: waddrmgrPkg, Fn: "ZzC03AcctsL2", Tiers: "qt", Reach: []string{"c03b-end", "account-created", "imported", "passphrase-changed", "recreated-compared", "privkey-checked", "extended"}, Bound: "scope BIP0084, accounts 0 and a second seeded account created during the history, every history of 2 operations from {next-external(1..2), next-internal, extend-internal, lock, unlock, restart, private passphrase change, new account, import private key + script, derive-from-path} on a chosen account; additionally the address must ENCODE the expected key in the expected format (oracle built with btcutil only), imported key/script returned unchanged, and a second wallet created from the same seed must issue the same addresses"},
 			{Pkg: waddrmgrPkg, Fn: "ZzC03ImportedL3", Tiers: "qt", Reach: []string{"c03b-end", "imported-account", "extended", "restarted", "passphrase-changed"}, Bound: "imported extended-public-key account (child b/i of the imported key) under scope BIP0049Plus with an overriding address schema (nested witness on both branches), histories of 3 operations from {next-external, next-internal, extend-internal, lock, unlock, restart, passphrase change}"},
 			{Pkg: waddrmgrPkg, Fn: "ZzC03ImportedTaprootL2", Tiers: "qt", Reach: []string{"c03b-end", "imported-account"}, Bound: "imported account under scope BIP0044 overriding to taproot (external) / witness (internal) addresses, 2 operations"},
+			{Pkg: waddrmgrPkg, Fn: "ZzC03TwoAcctsLockedL3", Tiers: "qt", Reach: []string{"c03b-end", "unlocked-after-issuing-while-locked", "privkey-checked", "restarted"}, Bound: "two seeded accounts, manager LOCKED at the start: histories of 3 operations from {next-external(1..2), next-internal, lock, unlock, restart} on a chosen account (addresses of both accounts issued while locked get their keys at the next Unlock)"},
+			{Pkg: waddrmgrPkg, Fn: "ZzC03TwoAcctsLockedL4", Tiers: "t", Reach: []string{"c03b-end", "unlocked-after-issuing-while-locked"}, Bound: "same, 4 operations"},
 			{Pkg: waddrmgrPkg, Fn: "ZzC03AcctsL3", Tiers: "t", Reach: []string{"c03b-end", "account-created", "imported", "recreated-compared"}, Bound: "several accounts, imports, passphrase change: 3 operations, scope BIP0084"},
 			{Pkg: waddrmgrPkg, Fn: "ZzC03Accts86L3", Tiers: "t", Reach: []string{"c03b-end"}, Bound: "same, scope BIP0086 (taproot)"},
 			{Pkg: waddrmgrPkg, Fn: "ZzC03Accts44L3", Tiers: "t", Reach: []string{"c03b-end"}, Bound: "same, scope BIP0044"},
@@ -225,6 +232,8 @@ func init() {
 		Runs: []hrun{
 			{Pkg: waddrmgrPkg, Fn: "ZzC08L2", Tiers: "qt", Reach: []string{"c08-end", "rolled-back", "commit-failed"}, Bound: "every history of 2 transactions from {next-external, next-internal, rename, mark-used, set-synced-to, new-account, extend-external}, each committed, rolled back (dry run) or failing at commit; fresh Open compared after every transaction"},
 			{Pkg: waddrmgrPkg, Fn: "ZzC08ImportedL2", Tiers: "qt", Reach: []string{"c08-end", "imported-account", "rolled-back"}, Bound: "the same 7 operations on an imported extended-public-key account that already has 2 external and 1 internal address, histories of 2 transactions"},
+			{Pkg: waddrmgrPkg, Fn: "ZzC08Retry0", Tiers: "qt", Reach: []string{"c08-end", "retry-agrees", "rolled-back", "commit-failed"}, Bound: "each of the 7 operations in a transaction that does not commit (rolled back or failing at commit), then the same request again in a committed transaction: afterwards running and freshly opened manager agree"},
+			{Pkg: waddrmgrPkg, Fn: "ZzC08Retry1", Tiers: "qt", Reach: []string{"c08-end", "retry-agrees"}, Bound: "the same after one committed operation"},
 			{Pkg: waddrmgrPkg, Fn: "ZzC08L3", Tiers: "t", Reach: []string{"c08-end", "rolled-back", "commit-failed"}, Bound: "histories of 3 transactions"},
 		},
 		Assume:  mgrAssume,
@@ -233,7 +242,7 @@ func init() {
 	reg(&propDef{
 		ID: "C04",
 		Runs: []hrun{
-			{Pkg: waddrmgrPkg, Fn: "ZzC04", Tiers: "qt", NoWitness: true, Reach: []string{"c04-end", "created", "imported", "passphrase-changed"}, Bound: "one operation order: create, open, unlock, 3 addresses, import private key + secret P2SH script + secret witness script, new account, private passphrase change, convert to watching-only, reopen; both passphrases, the new passphrase and both secret scripts SYMBOLIC; every window of every key/value ever written compared with 40+ secrets (and, until imports, public material)"},
+			{Pkg: waddrmgrPkg, Fn: "ZzC04", Tiers: "qt", NoWitness: true, Reach: []string{"c04-end", "created", "imported", "passphrase-changed", "root-key-neutered", "post-conversion-content-scanned"}, Bound: "one operation order: create, open, unlock, 3 addresses, import private key + secret P2SH script + secret witness script, new account, private passphrase change, [neuter the root key], convert to watching-only (afterwards no stored field may open under the master key or the private crypto key), reopen; both passphrases, the new passphrase and both secret scripts SYMBOLIC; every window of every key/value ever written compared with 40+ secrets (and, until imports, public material)"},
 			{Pkg: waddrmgrPkg, Fn: "ZzC04RaceB2", Tiers: "qt", Sched: true, NoWitness: true, Reach: []string{"c04-end", "import-refused", "import-succeeded"}, Bound: "ImportPrivateKey concurrent with Manager.Lock, every interleaving of their synchronisation operations with at most 2 preemptions: the key is refused or sealed under the real crypto key, never under the zeroed one"},
 		},
 		Assume: append([]string{
@@ -309,7 +318,7 @@ func init() {
 	reg(&propDef{
 		ID: "C11",
 		Runs: []hrun{
-			{Pkg: bdbPkg, Fn: "ZzC11T2O1", Tiers: "qt", Sched: true, Witnesses: 12, Reach: []string{"c11-end", "committed", "aborted", "panicked"}, Bound: "2 managed updates (committed, failed or panicking) of 1 operation each from {put top/nested, delete, delete nested bucket, sequence, incompatible put/create} over keys a,b,c with symbolic 2-byte values; full read-back (cursor both ways, Get, Seek, nested bucket, read-only writes) after each and after reopen"},
+			{Pkg: bdbPkg, Fn: "ZzC11T2O1", Tiers: "qt", Sched: true, Witnesses: 12, Reach: []string{"c11-end", "committed", "aborted", "panicked", "empty-value"}, Bound: "2 managed updates (committed, failed or panicking) of 1 operation each from {put top/nested, delete, delete nested bucket, sequence, incompatible put/create} over keys a,b,c with symbolic 2-byte, empty or nil values; full read-back (cursor both ways, Get, Seek, nested bucket, read-only writes) after each and after reopen"},
 			{Pkg: bdbPkg, Fn: "ZzC11T1O2", Tiers: "qt", Sched: true, Witnesses: 12, Reach: []string{"c11-end", "committed", "aborted", "panicked"}, Bound: "1 update of 2 operations"},
 			{Pkg: bdbPkg, Fn: "ZzC11T2O2", Tiers: "t", Sched: true, Witnesses: 24, Reach: []string{"c11-end"}, Bound: "2 updates of 2 operations"},
 			{Pkg: bdbPkg, Fn: "ZzC11T3O1", Tiers: "t", Sched: true, Witnesses: 24, Reach: []string{"c11-end"}, Bound: "3 updates of 1 operation"},
